@@ -108,6 +108,17 @@ package bsonkit
 //@   ensures [C12] result == spec.cmpQ(spec.q_ofF64(l), spec.q_ofI64(r))
 
 // ---------------------------------------------------------------------------
+// timestamp.go: event ids are strictly increasing whatever the wall clock does
+// (a clock that stands still or steps backwards, the counter wrapping around).
+// The seconds field reaching 2^32-1 (the year 2106) is excluded.
+
+//@ func Now
+//@   tags C08
+//@   requires tsSeconds < 4294967295
+//@   ensures [C08 name=strictly-increasing] result.T > old(tsSeconds) || (result.T == old(tsSeconds) && result.I > old(tsCounter))
+//@   ensures [C08 name=remembered] tsSeconds == result.T && tsCounter == result.I
+
+// ---------------------------------------------------------------------------
 // sort.go
 //
 // sortKey: an array is ranked by its smallest element (ascending) or its
@@ -132,8 +143,23 @@ package bsonkit
 
 //@ define colcmp(l, r, col) = spec.cmp(pure.sortKey(spec.getPath(*l, col.Path), col.Reverse), pure.sortKey(spec.getPath(*r, col.Path), col.Reverse))
 
+// Sort: the comparison handed to the sorting primitive is Order(...) < 0 on the
+// two documents at the given positions, and the primitive is the stable one
+// (ghost.sortStable, /verif/specs/runtime.contracts): ties keep insertion order.
+
+//@ func Sort$1
+//@   tags C13
+//@   uses wf
+//@   requires 0 <= i && i < len(list) && 0 <= j && j < len(list) && list[i] != nil && list[j] != nil
+//@   requires spec.wfVal(spec.VDoc(*list[i])) && spec.wfVal(spec.VDoc(*list[j]))
+//@   ensures [C13 name=less-is-order] result == (pure.Order(list[i], list[j], columns, false) < 0)
+//@ func Sort
+//@   tags C13
+//@   ensures [C13 name=stable-primitive] ghost.sortStable
+
 //@ func Order
 //@   tags C13
+//@   pure docs
 //@   uses wf order access
 //@   locals column a b res al ar
 //@   requires l != nil && r != nil && spec.wfVal(spec.VDoc(*l)) && spec.wfVal(spec.VDoc(*r))
@@ -199,8 +225,17 @@ package bsonkit
 //@   requires wfSet(s)
 //@   modifies nothing
 //@   ensures [C03] fresh(result) && fresh(result.Index) && (len(result.List) == 0 || fresh(result.List))
-//@   ensures [C03,C15] wfSet(result) && ownSet(result)
-//@   ensures [C03,C15] len(result.List) == len(s.List) && forall(i, 0, len(s.List), result.List[i] == s.List[i])
+//@   opt loopframe = on
+//@   ensures [C03,C15 lemma name=same-list] len(result.List) == len(s.List) && forall(i, 0, len(s.List), result.List[i] == s.List[i])
+//@   ensures [C03,C15 lemma name=same-index] all(d, Ref, has(result.Index, d) == has(s.Index, d) && imp(has(s.Index, d), result.Index[d] == s.Index[d]))
+//@   ensures [C03,C15 name=own] result != nil && result.Index != nil && ownSet(result)
+//@   ensures [C03,C15 name=wf-list] forall(i, 0, len(result.List), has(result.Index, result.List[i]) && result.Index[result.List[i]] == i)
+//@   ensures [C03,C15 name=wf-index] all(d, Ref, imp(has(result.Index, d), 0 <= result.Index[d] && result.Index[d] < len(result.List) && result.List[result.Index[d]] == d))
+//@   locals clone doc index
+//@   loop 0 invariant clone != nil && clone.Index != nil && fresh(clone) && fresh(clone.Index) && clone.Index != s.Index
+//@   loop 0 invariant all(d, Ref, has(clone.Index, d) == visited(d))
+//@   loop 0 invariant all(d, Ref, imp(visited(d), has(s.Index, d) && clone.Index[d] == s.Index[d]))
+//@   loop 0 invariant len(clone.List) == len(s.List) && forall(i, 0, len(s.List), clone.List[i] == s.List[i]) && (len(clone.List) == 0 || fresh(clone.List))
 
 // ---------------------------------------------------------------------------
 // access.go: the path-access functions against their abstract view
@@ -212,6 +247,23 @@ package bsonkit
 //@   uses access
 //@   modifies nothing
 //@   ensures result == spec.getPath(*doc, path)
+// clone.go: a clone is a new document (trusted: the recursive copy is not
+// verified; documents are immutable values in the model, so that a clone shares
+// no nested slice with its original is an assumption, DESIGN.md section 3)
+//@ func Clone
+//@   trusted
+//@   modifies nothing
+//@   ensures imp(doc != nil, result != nil && fresh(result) && *result == *doc) && imp(doc == nil, result == nil)
+//@ func CloneList
+//@   trusted
+//@   modifies nothing
+//@   ensures len(result) == len(list) && (len(result) == 0 || fresh(result)) && forall(i, 0, len(list), result[i] != nil && fresh(result[i]) && *result[i] == *list[i])
+
+//@ func All
+//@   trusted
+//@   uses access
+//@   modifies nothing
+//@   ensures result0 == spec.allValue(*doc, path, compact, merge) && result1 == spec.allMulti(*doc, path, compact, merge)
 //@ func Put
 //@   trusted
 //@   uses access
@@ -224,6 +276,27 @@ package bsonkit
 //@   modifies *doc
 //@   ensures result == old(spec.getPath(*doc, path))
 //@   ensures *doc == spec.unsetPath(old(*doc), path)
+
+// Increment / Multiply: the new value is Add / Mul of the current value (int32 0
+// when the field is missing) and the operand; it is written at the path, or the
+// call fails and leaves the document alone when the result is not a number.
+
+//@ func Increment
+//@   tags C11
+//@   uses access
+//@   requires doc != nil && spec.wfVal(spec.VDoc(*doc)) && spec.wfVal(increment)
+//@   modifies *doc
+//@   let cur = ite(old(spec.getPath(*doc, path)) == spec.VMissing, spec.VI32(0), old(spec.getPath(*doc, path)))
+//@   ensures [C11 name=not-a-number] imp(pure.Add(cur, increment) == spec.VMissing, err != nil && *doc == old(*doc))
+//@   ensures [C11 name=incremented] imp(err == nil, result0 == pure.Add(cur, increment) && *doc == spec.putPath(old(*doc), path, pure.Add(cur, increment), false))
+//@ func Multiply
+//@   tags C11
+//@   uses access
+//@   requires doc != nil && spec.wfVal(spec.VDoc(*doc)) && spec.wfVal(multiplier)
+//@   modifies *doc
+//@   let cur = ite(old(spec.getPath(*doc, path)) == spec.VMissing, spec.VI32(0), old(spec.getPath(*doc, path)))
+//@   ensures [C11 name=not-a-number] imp(pure.Mul(cur, multiplier) == spec.VMissing, err != nil && *doc == old(*doc))
+//@   ensures [C11 name=multiplied] imp(err == nil, result0 == pure.Mul(cur, multiplier) && *doc == spec.putPath(old(*doc), path, pure.Mul(cur, multiplier), false))
 
 // ---------------------------------------------------------------------------
 // math.go
@@ -271,3 +344,79 @@ package bsonkit
 //@   pure
 //@   uses arith
 //@   ensures [C11 name=value] imp(spec.modDecided(num, div) && imp(spec.decArm(num, div) && !spec.zeroDivisor(div), spec.decFinite(num, div)), result == spec.modNum(num, div))
+
+// ---------------------------------------------------------------------------
+// index.go: the shape of the key tuples. tuples always returns at least one
+// tuple and every tuple has one key per column; Add / Has / Remove index
+// tuples[0] and the btree comparison indexes keys[column] on that basis.
+
+//@ func (*Index).tuples
+//@   tags C20 C07 C15
+//@   requires i != nil
+//@   modifies nothing
+//@   locals tuples values next nt
+//@   ensures [C20,C07 name=at-least-one-tuple] len(result) >= 1
+//@   ensures [C20,C07 name=tuple-width] forall(k, 0, len(result), len(result[k]) == len(i.columns))
+//@   loop 0 invariant len(tuples) >= 1 && forall(k, 0, len(tuples), len(tuples[k]) == rangeindex + 1)
+//@   loop 1 invariant len(values) >= 1 && fresh(next) && alloc(next.base) > alloc(tuples.base) && imp(rangeindex + 1 >= 1, len(next) >= 1)
+//@   loop 1 invariant forall(k, 0, len(next), len(next[k]) == rangeindex0 + 2)
+//@   loop 1 invariant len(tuples) >= 1 && forall(k, 0, len(tuples), len(tuples[k]) == rangeindex0 + 1)
+//@   loop 2 invariant len(values) >= 1 && fresh(next) && alloc(next.base) > alloc(tuples.base) && imp(rangeindex1 + 1 >= 1 || rangeindex + 1 >= 1, len(next) >= 1)
+//@   loop 2 invariant forall(k, 0, len(next), len(next[k]) == rangeindex0 + 2)
+//@   loop 2 invariant len(tuples) >= 1 && forall(k, 0, len(tuples), len(tuples[k]) == rangeindex0 + 1) && len(t) == rangeindex0 + 1
+
+// The index against the abstract view of its btree (specs/btree.contracts:
+// ghost.tree[t] is the set of entries of tree t). Add and Remove either report
+// false and leave the tree exactly as it was, or store / delete an entry for
+// every key tuple of the document; nothing else is touched.
+
+//@ define entryOf(keys, doc) = mkstruct(S_bsonkit_indexEntry, keys, doc)
+//@ define otherTrees(i) = all(t, Ref, imp(t != i.btree, ghost.tree[t] == old(ghost.tree)[t]))
+
+//@ func (*Index).hasKey
+//@   trusted
+//@   tags C07
+//@   requires i != nil && i.btree != nil
+//@   modifies nothing
+
+//@ func (*Index).Add
+//@   tags C07 C15
+//@   uses btree
+//@   requires i != nil && i.btree != nil
+//@   modifies ghost.tree
+//@   locals tuples
+//@   ensures [C07,C15 name=rejected-unchanged] imp(!result, ghost.tree == old(ghost.tree))
+//@   ensures [C15 name=all-tuples-stored] imp(result, forall(j, 0, len(tuples), any(e, S_bsonkit_indexEntry, ghost.tree[i.btree][e] && spec.entryEqv(i.btree, e, entryOf(tuples[j], doc)))))
+//@   ensures [C15 name=only-this-document] all(e, S_bsonkit_indexEntry, imp(ghost.tree[i.btree][e] && !old(ghost.tree)[i.btree][e], any(j, Int, 0 <= j && j < len(tuples) && e == entryOf(tuples[j], doc))))
+//@   ensures [C15 name=other-trees] otherTrees(i)
+//@   loop 0 invariant ghost.tree == old(ghost.tree)
+//@   loop 1 invariant otherTrees(i) && forall(j, 0, rangeindex + 1, any(e, S_bsonkit_indexEntry, ghost.tree[i.btree][e] && spec.entryEqv(i.btree, e, entryOf(tuples[j], doc))))
+//@   loop 1 invariant all(e, S_bsonkit_indexEntry, imp(ghost.tree[i.btree][e] && !old(ghost.tree)[i.btree][e], any(j, Int, 0 <= j && j < rangeindex + 1 && e == entryOf(tuples[j], doc))))
+
+//@ func (*Index).Remove
+//@   tags C15
+//@   uses btree
+//@   requires i != nil && i.btree != nil
+//@   modifies ghost.tree
+//@   locals tuples
+//@   ensures [C15 name=rejected-unchanged] imp(!result, ghost.tree == old(ghost.tree))
+//@   ensures [C15 name=all-tuples-deleted] imp(result, forall(j, 0, len(tuples), all(e, S_bsonkit_indexEntry, imp(ghost.tree[i.btree][e], !spec.entryEqv(i.btree, e, entryOf(tuples[j], doc))))))
+//@   ensures [C15 name=only-removes] all(e, S_bsonkit_indexEntry, imp(ghost.tree[i.btree][e], old(ghost.tree)[i.btree][e]))
+//@   ensures [C15 name=only-this-document] all(e, S_bsonkit_indexEntry, imp(old(ghost.tree)[i.btree][e] && !ghost.tree[i.btree][e], any(j, Int, 0 <= j && j < len(tuples) && spec.entryEqv(i.btree, e, entryOf(tuples[j], doc)))))
+//@   ensures [C15 name=other-trees] otherTrees(i)
+//@   loop 0 invariant otherTrees(i) && all(e, S_bsonkit_indexEntry, imp(ghost.tree[i.btree][e], old(ghost.tree)[i.btree][e]))
+//@   loop 0 invariant all(e, S_bsonkit_indexEntry, imp(old(ghost.tree)[i.btree][e] && !ghost.tree[i.btree][e], any(j, Int, 0 <= j && j < rangeindex + 1 && spec.entryEqv(i.btree, e, entryOf(tuples[j], doc)))))
+//@   loop 0 invariant forall(j, 0, rangeindex + 1, all(e, S_bsonkit_indexEntry, imp(ghost.tree[i.btree][e], !spec.entryEqv(i.btree, e, entryOf(tuples[j], doc)))))
+
+//@ func (*Index).Has
+//@   tags C15
+//@   requires i != nil && i.btree != nil
+//@   modifies nothing
+
+//@ func (*Index).Clone
+//@   tags C03 C15
+//@   uses btree
+//@   requires i != nil && i.btree != nil
+//@   modifies ghost.tree
+//@   ensures [C03,C15 name=fresh-copy] result != nil && fresh(result) && result.btree != nil && fresh(result.btree) && ghost.tree[result.btree] == old(ghost.tree)[i.btree]
+//@   ensures [C03,C15 name=others-kept] all(t, Ref, imp(t != result.btree, ghost.tree[t] == old(ghost.tree)[t]))
